@@ -104,6 +104,7 @@ package tq
 //@ func (*basicDownloadAdapter).download
 //@   props C02 C09 C06
 //@   ensures @C06 fncalls() <= old(fncalls()) + 1
+//@   ensures result == nil ==> moves(old(t.Path)) > old(moves(t.Path))
 //@   requires @inv t != nil && dlFile != nil && t.Path == objpath(t.Oid)
 //@   requires @inv fexists(t.Path) ==> hexsha(fdata(t.Path)) == t.Oid
 //@   requires !isobj(fpath(dlFile))
@@ -111,7 +112,7 @@ package tq
 //@   requires rrest(iface(dlFile)) == ""
 //@   requires fromByte == 0 ==> fdata(fpath(dlFile)) == ""
 //@   requires fromByte > 0 ==> hash != nil && is_sha256(hash) && wbuf(hash) == fdata(fpath(dlFile))
-//@   modifies fresh, ghost fexists[t.Path], ghost fdata[t.Path], ghost fexists[fpath(dlFile)], ghost fdata[fpath(dlFile)], ghost wbuf, ghost rrest, ghost lastcopy, ghost fncalls
+//@   modifies fresh, ghost fexists[t.Path], ghost fdata[t.Path], ghost fexists[fpath(dlFile)], ghost fdata[fpath(dlFile)], ghost wbuf, ghost rrest, ghost lastcopy, ghost fncalls, ghost moves[t.Path]
 //@   ensures result == nil ==> fexists(old(t.Path)) && hexsha(fdata(old(t.Path))) == old(t.Oid)
 //@   ensures result != nil ==> fexists(old(t.Path)) == old(fexists(t.Path)) && fdata(old(t.Path)) == old(fdata(t.Path))
 //@   decreases fromByte
@@ -144,6 +145,7 @@ package tq
 // runs download() under its precondition.
 //@ func (*basicDownloadAdapter).DoTransfer
 //@   props C02 C09 C06
+//@   ensures result == nil ==> moves(old(t.Path)) > old(moves(t.Path))
 //@   ensures @C06 fncalls() <= old(fncalls()) + 1
 //@   requires @inv t != nil && t.Path == objpath(t.Oid)
 //@   requires @inv fexists(t.Path) ==> hexsha(fdata(t.Path)) == t.Oid
@@ -259,6 +261,7 @@ package tq
 //@   ensures isauxdir(result)
 //@ func (*SSHAdapter).download
 //@   props C02 C09 C06
+//@   ensures result == nil ==> moves(old(t.Path)) > old(moves(t.Path))
 //@   ensures @C06 fncalls() <= old(fncalls()) + 1
 //@   requires @inv t != nil && a.fs != nil && a.transfer != nil && t.Path == objpath(t.Oid)
 //@   requires @inv fexists(t.Path) ==> hexsha(fdata(t.Path)) == t.Oid
@@ -270,7 +273,8 @@ package tq
 //@   requires @inv fexists(t.Path) ==> hexsha(fdata(t.Path)) == t.Oid
 //@   requires !isobj(fpath(f)) && fdata(fpath(f)) == "" && rrest(iface(f)) == ""
 //@   requires @inv !dyntype(io.Discard, "*os.File")
-//@   modifies fresh, ghost fexists[t.Path], ghost fdata[t.Path], ghost fexists[fpath(f)], ghost fdata[fpath(f)], ghost wbuf, ghost rrest, ghost lastcopy
+//@   modifies fresh, ghost fexists[t.Path], ghost fdata[t.Path], ghost fexists[fpath(f)], ghost fdata[fpath(f)], ghost wbuf, ghost rrest, ghost lastcopy, ghost moves[t.Path]
+//@   ensures result == nil ==> moves(old(t.Path)) > old(moves(t.Path))
 //@   ensures result == nil ==> fexists(old(t.Path)) && hexsha(fdata(old(t.Path))) == old(t.Oid)
 //@   ensures result != nil ==> fexists(old(t.Path)) == old(fexists(t.Path)) && fdata(old(t.Path)) == old(fdata(t.Path))
 // The wire side (assumed frames: they talk to the remote process and touch
@@ -311,9 +315,12 @@ package tq
 //@   requires @inv fexists(t.Path) ==> hexsha(fdata(t.Path)) == t.Oid
 //@   loop 1 invariant @C06 fncalls() <= old(fncalls()) + 1 && (!authCalled ==> fncalls() == old(fncalls()))
 //@   loop 1 invariant !complete ==> fexists(t.Path) == old(fexists(t.Path)) && fdata(t.Path) == old(fdata(t.Path))
+//@   loop 1 invariant complete && a.direction == Download ==> moves(t.Path) > old(moves(t.Path))
+//@   loop 1 invariant moves(t.Path) >= old(moves(t.Path))
 //@   loop 1 invariant complete && a.direction == Download ==> fexists(t.Path) && hexsha(fdata(t.Path)) == t.Oid
 //@   loop 1 invariant complete && a.direction != Download ==> fexists(t.Path) == old(fexists(t.Path)) && fdata(t.Path) == old(fdata(t.Path))
 //@   ensures result == nil && old(a.direction) == Download ==> fexists(old(t.Path)) && hexsha(fdata(old(t.Path))) == old(t.Oid)
+//@   ensures result == nil && old(a.direction) == Download ==> moves(old(t.Path)) > old(moves(t.Path))
 //@   ensures result != nil || old(a.direction) != Download ==> fexists(old(t.Path)) == old(fexists(t.Path)) && fdata(old(t.Path)) == old(fdata(t.Path))
 //@ func github.com/git-lfs/git-lfs/v3/tools.VerifyFileHash
 //@   props C02 C09
@@ -523,10 +530,24 @@ package tq
 //@   at call (*tq.TransferQueue).handleTransferResult:1 assert arg1__ == res && arg2__ == retries
 //@   at call (*tq.TransferQueue).handleTransferResult:2 assert arg1__ == res && arg2__ == retries
 //@   at call (tq.Adapter).Add:1 assert arg1__ == present
+// An adapter counts as started - so that Wait() will End() it and later batches
+// skip Begin - only after its Begin succeeded: Begin is never called on, and
+// the flag never set for, an adapter whose start failed (End() on such an
+// adapter waits for workers that never came up).
 //@ func (*TransferQueue).ensureAdapterBegun
+//@   props C06
+//@   requires @inv q != nil && q.adapter != nil
+//@   at call (tq.Adapter).Begin:1 assert !q.adapterInProgress
+//@   ensures result == nil ==> q.adapterInProgress
+//@   ensures old(q.adapterInProgress) ==> result == nil
+//@ iface (Adapter).Begin
+//@   modifies heap
+//@ iface (Adapter).Name
+//@   noeffect
+//@ func (*TransferQueue).toAdapterCfg
 //@   assumed
 //@   props C06
-//@   modifies fresh, fields q
+//@   modifies fresh
 //@ func (*TransferQueue).Skip
 //@   assumed
 //@   props C06
